@@ -106,6 +106,8 @@ def run_case(c):
         argv += ['--trash-dir', '/home/u/usb/../old']
     env = dict(W.env)
     now = NOW
+    if c['td'] in ('top', 'alt', 'mixed') and len(c['ms']) % 2 == 0:
+        env['TRASH_VOLUMES'] = '//mnt//v1/'          # the same volume, named through the environment with doubled and trailing slashes
     if c['seam'] == 'env':
         env['TRASH_DATE'] = NOW
         now = '2001-01-01T00:00:00'        # the fake clock says something else; TRASH_DATE must win
